@@ -107,6 +107,12 @@ class Pair:
 
         self.sc = sc
         self.gb = gb
+        # execnet keeps process-wide caches (e.g. _Serializer._dispatch): fill them so that the lines
+        # executed -- the line-level scheduling points -- do not depend on what ran earlier in this process
+        ch0 = gb.Channel.__new__(gb.Channel)
+        ch0.id = 0
+        ch0.gateway = None
+        gb.dumps_internal([None, True, 1, 2**40, 1.5, 1j, b"", "", (), [], {}, set(), frozenset(), ch0])
         rng = random.Random(seed)
         self.em_i = S.SchedExecModel(sc, "thread")
         self.em_w = S.SchedExecModel(sc, remote_backend)
